@@ -262,10 +262,9 @@ Definition width_ok_b (m : wmode) (len : nat) : bool :=
   end.
 (* [bf k] = sample k is strictly beyond the threshold *)
 Definition bracketed_run_f (bf : nat -> bool) (n s e : nat) : bool :=
-  (1 <=? s) && (s <? e) && (e <? n)
-  && forallb bf (seq s (e - s))
-  && negb (bf (s - 1))
-  && negb (bf e).
+  if (1 <=? s) && (s <? e) && (e <? n) then                  (* if-then-else: evaluated lazily *)
+    if bf (s - 1) then false else if bf e then false else forallb bf (seq s (e - s))
+  else false.
 Definition bracketed_run_b (data : list Qc) (dir : direction) (thr : Qc) (s e : nat) : bool :=
   bracketed_run_f (fun k => beyond_b dir thr (dat data k)) (length data) s e.
 
